@@ -20,6 +20,30 @@ from c05 import resolver, constructor_of
 PROP = "C18"
 
 
+def narrowing_calls(P, gid):
+    """calls reachable from a generate_models implementation that narrow the map of types to declare: HashMap::retain / remove / extract_if on a map of
+    StructInfo, or an Iterator::filter / filter_map over its entries (the map rebuilt from the filtered iterator): [(Fn, Call, closure id or None)]"""
+    out = []
+    for fid in sorted(P.reachable([gid])):
+        f = P.fns[fid]
+        for c in f.calls:
+            if c.bb not in f.reach_blocks:
+                continue
+            tys = " ".join(c.generics + [c.self_ty or ""])
+            direct = short_path(c.path) in ("HashMap::retain", "HashMap::remove", "HashMap::extract_if") and "StructInfo" in tys
+            # (a filter counts only in the generator's own body: the collector builds the used set by filtering all discovered structs, which
+            # is the construction of the set, not its narrowing)
+            lazy = fid == gid and c.name in ("filter", "filter_map") and (c.trait or "").endswith("Iterator") and "StructInfo" in tys and re.search(r"hash_map::(IntoIter|Iter|Drain)", tys)
+            if not (direct or lazy):
+                continue
+            cid = None
+            if len(c.args) > 1:
+                o = f.origin(c.args[1])
+                cid = o[1].get("closure") if o[0] == "aggr" and isinstance(o[1], dict) else None
+            out.append((f, c, cid if cid in P.fns else None))
+    return out
+
+
 def check(ctx):
     P = ctx.P
     S = ctx.S
@@ -369,29 +393,25 @@ def check(ctx):
               "a project type that is mapped (Uuid -> string) would still be declared in types.ts although nothing references it")
     gens = [t for t in P.trait_impls.get("tauri_typegen::generators::base::BaseBindingsGenerator::generate_models", []) if t in P.fns]
     for gid in gens:
-        scope = P.reachable([gid])
         okd = False
-        for fid in scope:
-            f = P.fns[fid]
-            for c in f.calls:
-                if short_path(c.path) in ("HashMap::retain", "HashMap::remove") and "StructInfo" in " ".join(c.generics + [c.self_ty or ""]):
-                    # the predicate / key must come from type_mappings
-                    texts = [f.describe_origin(f.origin(a), deep=3) for a in c.args]
-                    clos = [k for k in P.family(fid) if "::{closure" in k]
-                    uses = any("type_mappings" in t for t in texts)
-                    for k in clos:
-                        g = P.fns[k]
-                        for cc in g.calls:
-                            if short_path(cc.path) in ("HashMap::contains_key", "HashMap::get"):
-                                uses = True
-                    if uses:
-                        okd = True
+        for (f, c, cid) in narrowing_calls(P, gid):
+            # the predicate / key must come from type_mappings (the narrowing may be a retain/remove in place or a filter the map is rebuilt from)
+            texts = [f.describe_origin(f.origin(a), deep=3) for a in c.args]
+            clos = [cid] if cid else [k for k in P.family(f.id) if "::{closure" in k]
+            uses = any("type_mappings" in t for t in texts)
+            for k in clos:
+                g = P.fns[k]
+                for cc in g.calls:
+                    if short_path(cc.path) in ("HashMap::contains_key", "HashMap::get"):
+                        uses = True
+            if uses:
+                okd = True
         # ... and the filter is the last word on the declared set: no insertion can follow it
         f0 = P.fns[gid]
         from rulelib import blocks_reachable_from
         late = []
-        for c in f0.calls:
-            if short_path(c.path) in ("HashMap::retain", "HashMap::remove") and "StructInfo" in " ".join(c.generics + [c.self_ty or ""]):
+        for (fn_, c, _cid) in narrowing_calls(P, gid):
+            if fn_ is f0:
                 after = blocks_reachable_from(f0, c.bb)
                 late += [i for i in f0.calls if i.bb in after and short_path(i.path) in ("HashMap::insert", "HashMap::extend") and "StructInfo" in " ".join(i.generics + [i.self_ty or ""])]
         if late:
@@ -408,14 +428,10 @@ def check(ctx):
     # predicate (names "behind" a mapped type, names matching a pattern) removes declarations of types the mapping does not name
     seen_pred = set()
     for gid in gens:
-        for fid in P.reachable([gid]):
-            f = P.fns[fid]
-            for c in f.calls:
-                if c.bb not in f.reach_blocks or short_path(c.path) not in ("HashMap::retain", "HashMap::extract_if") or "StructInfo" not in " ".join(c.generics + [c.self_ty or ""]) or len(c.args) < 2:
-                    continue
-                o = f.origin(c.args[1])
-                cid = o[1].get("closure") if o[0] == "aggr" and isinstance(o[1], dict) else None
-                if cid not in P.fns or cid in seen_pred:
+        for (f, c, cid) in narrowing_calls(P, gid):
+            fid = f.id
+            if True:
+                if cid is None or cid in seen_pred or short_path(c.path) == "HashMap::remove":
                     continue
                 seen_pred.add(cid)
                 other = sorted({short_path(cc.path) for cc in P.fns[cid].calls if cc.bb in P.fns[cid].reach_blocks
